@@ -16,6 +16,8 @@ fn worlds(thorough: bool) -> Vec<Built> {
     let mut v = vec![stdworlds::build_with_roots(&stdworlds::std_spec("c01-std-dff", [Enc::Dynamic, Enc::Fixed, Enc::Fixed], 3000, 300), &stdworlds::std_roots())];
     v.push(stdworlds::build_with_roots(&stdworlds::chain_spec("c01-chain-fdd", [Enc::Fixed, Enc::Dynamic, Enc::Dynamic], 60000, 2500), &stdworlds::chain_roots()));
     v.push(stdworlds::build_with_roots(&stdworlds::chain_spec("c01-dust-dfd", [Enc::Dynamic, Enc::Fixed, Enc::Dynamic], 3000, 2500), &stdworlds::dust_roots()));
+    // a position bound exactly on a tick-array edge (tick 5632 = slot 0 of the next array), roots just below / just above it
+    v.push(stdworlds::build_with_roots(&stdworlds::edge_spec("c01-edge-dfd", [Enc::Dynamic, Enc::Fixed, Enc::Dynamic]), &stdworlds::edge_roots()));
     if thorough {
         v.push(stdworlds::build_with_roots(&stdworlds::chain_spec_at("c01-chain-low", [Enc::Dynamic, Enc::Dynamic, Enc::Fixed], 3000, 300, -112640), &stdworlds::chain_roots()));
         v.push(stdworlds::build_with_roots(&stdworlds::chain_spec_at("c01-chain-high", [Enc::Fixed, Enc::Dynamic, Enc::Dynamic], 100, 2500, 225280), &stdworlds::chain_roots()));
